@@ -235,4 +235,24 @@ Section Complete.
     destruct (copy_buffer H comb true fuel (mkBase evs None) oci_bufsz (d_dg d) (Z.of_nat (length (stream evs)))) as [[e out] v].
     simpl in C. inversion C; subst. reflexivity.
   Qed.
+
+  Lemma file_bufsz_pos : 1 <= file_bufsz.
+  Proof. apply Nat.leb_le. vm_compute. reflexivity. Qed.
+
+  (* file.Store, named push: a fresh name and a well-behaved reader of the right bytes *)
+  Theorem file_push_complete fuel s name path d evs :
+    name <> [] -> name_in name (f_names s) = false ->
+    nfail evs = 0 -> valid_digest (d_dg d) = true ->
+    d_dg d = digest_of H (alg_of (d_dg d)) (stream evs) -> d_sz d = Z.of_nat (length (stream evs)) ->
+    ev_weight evs < fuel ->
+    file_push H comb true fuel s name path d evs
+    = (None, mkFs (assoc_set (f_files s) path (stream evs)) (name :: f_names s)
+                  (assoc_set (f_d2p s) (d_dg d) path) (f_fb s)).
+  Proof.
+    intros Nn Nin NF V D Sz Fu. unfold file_push. destruct name as [|c n0]; [congruence|].
+    rewrite Nin, Sz.
+    pose proof (copy_buffer_complete fuel evs file_bufsz (d_dg d) file_bufsz_pos NF V D Fu) as C.
+    destruct (copy_buffer H comb true fuel (mkBase evs None) file_bufsz (d_dg d) (Z.of_nat (length (stream evs)))) as [[e out] v].
+    simpl in C. inversion C; subst. reflexivity.
+  Qed.
 End Complete.
